@@ -124,7 +124,7 @@ func hostileChecks(report0 func(prop, key, script, what string)) int {
 			}
 		}
 		for _, name := range []string{"morlock", "turochamp", "bernstein", "sargon"} {
-			if idx%4 != 0 && name != "morlock" && idx%4 != len(name)%4 {
+			if idx%4 != 0 && name != "morlock" && idx%4 != len(name)%4 && !strings.HasPrefix(script[0], "position fen") {
 				continue // every script on morlock, a quarter of them on each of the others
 			}
 			n++
@@ -170,6 +170,12 @@ func hostileChecks(report0 func(prop, key, script, what string)) int {
 					report("C16", "crash", label, fmt.Sprintf("%s: the driver process failed: %v", name, err))
 					return
 				}
+				fenScript := false
+				for _, l := range script {
+					if strings.HasPrefix(l, "position fen") {
+						fenScript = true
+					}
+				}
 				outs := strings.Split(sb.String(), "\n")
 				nGo, nBest := 0, 0
 				for _, l := range script {
@@ -185,7 +191,7 @@ func hostileChecks(report0 func(prop, key, script, what string)) int {
 					if strings.HasPrefix(o, "OUT bestmove") {
 						nBest++
 						f := strings.Fields(o)
-						if len(f) >= 3 && nBest <= len(legalAt) && !legalAt[nBest-1][f[2]] {
+						if len(f) >= 3 && nBest <= len(legalAt) && !fenScript && !legalAt[nBest-1][f[2]] {
 							report("C04", "illegal", label, fmt.Sprintf("%s: bestmove %s is not a legal move of the position set up", name, f[2]))
 						}
 					}
